@@ -190,6 +190,76 @@ def _apply(fnode, ren):
     return cnt
 
 
+def _inline_new_temporaries(fnode, known):
+    """A local that the reference version of the function does not have, that is assigned once (`x = E`, E free of random
+    draws) and read once, later in the same block with none of E's operands (nor x) reassigned in between, is a freshly
+    introduced temporary: its use is replaced by E and the definition dropped (the inverse of an extract-variable refactor)."""
+    done = []
+    for _ in range(12):
+        locs, params = _own_locals(fnode)
+        cand = None
+        stores, loads = {}, {}
+        for n in walk_no_nested(fnode):
+            if isinstance(n, ast.Name):
+                (stores if isinstance(n.ctx, (ast.Store, ast.Del)) else loads).setdefault(n.id, []).append(n)
+        for owner in [fnode] + [x for x in walk_no_nested(fnode) if isinstance(x, (ast.If, ast.For, ast.While, ast.With, ast.Try))]:
+            for field in ('body', 'orelse', 'finalbody'):
+                blk = getattr(owner, field, None)
+                if not isinstance(blk, list):
+                    continue
+                for i, st in enumerate(blk):
+                    if not (isinstance(st, ast.Assign) and len(st.targets) == 1 and isinstance(st.targets[0], ast.Name)):
+                        continue
+                    x = st.targets[0].id
+                    if x in known or x not in locs or len(stores.get(x, [])) != 1 or len(loads.get(x, [])) != 1:
+                        continue
+                    txt = ast.unparse(st.value)
+                    if 'rng' in txt or 'random' in txt:
+                        continue
+                    operands = {n.id for n in ast.walk(st.value) if isinstance(n, ast.Name)}
+                    use = loads[x][0]
+                    # find the later statement of this block that contains the use
+                    for j in range(i + 1, min(i + 4, len(blk))):
+                        holder = blk[j]
+                        if any(n is use for n in ast.walk(holder)):
+                            between = blk[i + 1:j]
+                            clobber = False
+                            for b in between + [holder]:
+                                for n in ast.walk(b):
+                                    if isinstance(n, ast.Name) and isinstance(n.ctx, (ast.Store, ast.Del)) and n.id in operands | {x} and b is not holder:
+                                        clobber = True
+                                    if isinstance(n, (ast.Subscript, ast.Attribute)) and isinstance(n.ctx, ast.Store) and b is not holder:
+                                        bb = n
+                                        while isinstance(bb, (ast.Subscript, ast.Attribute)):
+                                            bb = bb.value
+                                        if isinstance(bb, ast.Name) and bb.id in operands:
+                                            clobber = True
+                            if isinstance(holder, (ast.For, ast.While)) :
+                                clobber = True      # the use would be re-evaluated per iteration
+                            if not clobber:
+                                cand = (blk, i, st, use, holder)
+                            break
+                    if cand:
+                        break
+                if cand:
+                    break
+            if cand:
+                break
+        if not cand:
+            break
+        blk, i, st, use, holder = cand
+
+        class _Sub(ast.NodeTransformer):
+            def visit_Name(self, n):
+                if n is use:
+                    return ast.copy_location(st.value, n)
+                return n
+        _Sub().visit(holder)
+        del blk[i]
+        done.append(st.targets[0].id)
+    return done
+
+
 def normalise(prog, hints=None):
     """Rename locals in place (outer functions first).  Returns {function key: {old: new}} for the report."""
     if hints is None:
@@ -213,6 +283,11 @@ def normalise(prog, hints=None):
             if ren:
                 _apply(f.node, ren)
                 done[key] = ren
+            known = set(hints[key]['sig'])
+            inl = _inline_new_temporaries(f.node, known)
+            if inl:
+                done.setdefault(key, {})
+                done[key].update({k: '<inlined>' for k in inl})
     if done:
         from . import loader
         loader.invalidate_caches()
